@@ -3,6 +3,7 @@ import CbiVerif.Drv.PP
 import CbiVerif.Drv.Metrics
 import CbiVerif.Drv.C06
 import CbiVerif.Drv.Dups
+import CbiVerif.Drv.DbPath
 /-! Native JSON-lines driver: one request object per line, one reply per line.
 Each area registers its ops in `CbiVerif/Drv/<Area>.lean`. -/
 open Lean
@@ -11,7 +12,8 @@ def handlerTable : List (String × (Json → Json)) :=
   (ppOps.map fun o => (o, handlePP)) ++
   CbiVerif.Drv.Metrics.handlers ++
   CbiVerif.Drv.C06.handlers ++
-  CbiVerif.Drv.Dups.handlers
+  CbiVerif.Drv.Dups.handlers ++
+  CbiVerif.Drv.DbPath.handlers
 
 def handle (j : Json) : Json :=
   match j.getObjValAs? String "op" with
